@@ -51,10 +51,14 @@ def validate(traces, wd, name="p", shards=None, timeout=1800):
                 fh.write(json.dumps({"ev": tr["ev"]}) + "\n")
             dcfg = os.path.join(wd, f"{name}{s}_diag{tidx}.cfg")
             _cfg(dcfg, True)
-            d = tlc.run("PersistTrace", dcfg, workdir=os.path.join(wd, f"{name}d{s}_{tidx}"), workers=1, deque=True,
-                        env={"TRACE_FILE": dpath}, timeout=300)
-            names = sorted({m.group(2) for m in re.finditer(r'<<"CLAUSE", \d+, (\d+), "(\w+)">>', d.out)
-                            if int(m.group(1)) == upto}) or ["action-not-enabled"]
+            names = ["(not diagnosed)"]
+            try:
+                d = tlc.run("PersistTrace", dcfg, workdir=os.path.join(wd, f"{name}d{s}_{tidx}"), workers=1, deque=True,
+                            env={"TRACE_FILE": dpath}, timeout=150)
+                names = sorted({m.group(2) for m in re.finditer(r'<<"CLAUSE", \d+, (\d+), "(\w+)">>', d.out)
+                                if int(m.group(1)) == upto}) or ["action-not-enabled"]
+            except tlc.MachineryError:
+                pass            # the diagnosis is a hint; the verdict is the rejection
             out.append({"trace": tr, "index": upto, "clauses": names})
         for tidx, upto in sorted(rej.items())[8:]:
             out.append({"trace": ts[tidx - 1], "index": upto, "clauses": ["(not diagnosed)"]})
